@@ -251,6 +251,7 @@ def run_N3(ctx, case):
             chk(False, 'loop body does not execute: %s (pc %#x)' % (e, m.pc)); return
         npaths[0] += 1; pc = fk['pc']; phase_seen.add(kind)
         if 'pre' not in st: chk(False, 'program area not reached'); return
+        if soft: chk(nsoft[0] == 16, 'software AES: sixteen round-routine calls in the F/E mix (%d)' % nsoft[0])
         # ---- steps 1-3
         r1 = [R0[i] ^ ld(S0, z64(A0) + 8 * i) for i in range(8)]
         for i in range(8): q.prove_eq(pc, st['pre']['r'][i], r1[i], '%s: step 2: r%d ^= scratchpad[spAddr0 + %d]' % (tag, i, 8 * i), 64)
